@@ -1,7 +1,7 @@
 (* C16 - Computational-basis state calculus matches the state vector. *)
 From Coq Require Import ZArith NArith List Bool Reals.
 From QP Require Import Cx Apply.
-From QPM Require Import Pauli CompBasis SuperPos PrepCircuit.
+From QPM Require Import Pauli CompBasis SuperPos PrepCircuit SuperPosFull.
 Import ListNotations.
 
 (* one Pauli gate: i^phase' |bits'> = sigma_index (i^phase |bits>), every qubit count, every
@@ -57,6 +57,20 @@ Theorem mixed_chain_state_is_the_gates_applied_to_the_tracked_vector :
   Cmul (CompBasis.ipow ph) (csem (prep n bits ++ gs) (CompBasis.ket n 0%N) b) = csem gs (CompBasis.vec (n, bits, ph)) b.
 Proof. exact mixed_chain_state. Qed.
 Print Assumptions mixed_chain_state_is_the_gates_applied_to_the_tracked_vector.
+
+(* the whole circuit of comp_basis_superposition, from |0...0>: the preparation circuit of state a, the X..X rotation on the
+   qubits where the bit patterns differ, the RZ on the lowest differing qubit - bit patterns as the integers the code uses,
+   every register size, all x <> y whose lowest differing qubit lies in the register, all theta and phi *)
+Theorem superposition_builder_from_the_zero_state : forall n (x y : N) d theta phi,
+  (d < n)%nat -> lowbit (N.lxor x y) = Some d ->
+  let m := basis_of (N.lxor x y) in
+  let sign := if N.testbit y (N.of_nat d) then 1%R else (-1)%R in
+  let alpha := (2 * sign * (phi / 2 - PI / 4))%R in
+  exists c, Cunit c /\ forall b,
+    rzq d alpha (xrot m theta (csem (prep n x) (CompBasis.ket n 0%N))) b
+    = Cmul c (Cadd (Cmul (RtoC (cos theta)) (CompBasis.ket n x b)) (Cmul (Cmul (Cexp phi) (RtoC (sin theta))) (CompBasis.ket n y b))).
+Proof. exact superposition_from_the_zero_state. Qed.
+Print Assumptions superposition_builder_from_the_zero_state.
 
 Example c16_example :
   add_paulis (3%nat, 5%N, 0%Z) [(0%nat, PY); (1%nat, PX); (2%nat, PZ); (0%nat, PY)]
